@@ -124,7 +124,7 @@ def run(ctx):
     pnp = qp.numpy
     ncirc = ctx.n(120, 4000)
     base = ctx.shard * 100000
-    min_circ = 4 if ctx.quick else 20
+    min_circ = 4 if ctx.quick else 8
 
     def classify(iface, cfg, spec, default, exc=None, fn_nocache=None, Href=None):
         """mechanism tag from the circuit content / a differential re-run without the execution cache"""
